@@ -22,7 +22,7 @@ SeqOfSet(S) == IF S = {} THEN <<>> ELSE LET x == CHOOSE x \in S : TRUE IN <<x>> 
 RECURSIVE Concat(_, _)
 Concat(ss, i) == IF i > Len(ss) THEN <<>> ELSE ss[i] \o Concat(ss, i + 1)
 
-Ivals == { <<3 * a, 3 * b>> : a \in 1..TMax, b \in 2..TMax } \cap { iv \in (0..99) \X (0..99) : iv[1] < iv[2] }
+Ivals == { iv \in { <<3 * a, 3 * b>> : a \in 1..TMax, b \in 1..TMax } : iv[1] < iv[2] }
 W0(k, tg, iv, x) == [k |-> k, tg |-> tg, s |-> iv[1], e |-> iv[2], x |-> x, cm |-> 0, ct |-> 0]
 WithCancel(ws) == { [w EXCEPT !.cm = c, !.ct = IF c = 3 THEN w.s - 2 ELSE 0] : w \in ws, c \in CancelModes }
 
@@ -50,7 +50,6 @@ Groups == << [a |-> <<11>>, b |-> <<12>>], [a |-> <<11>>, b |-> <<12, 13>>] >>
 Edges(ws) == UNION { {ws[i].s, ws[i].e} : i \in 1..Len(ws) } \ {Inf}
 LastEdge(ws) == IF Edges(ws) = {} THEN 3 ELSE MaxOf(Edges(ws))
 Around(ws) == UNION { {x - 1, x, x + 1} : x \in Edges(ws) } \cup {LastEdge(ws) + 4}
-Horizon(ws) == LastEdge(ws) + 48
 Kinds(ws) == { ws[i].k : i \in 1..Len(ws) }
 CrashTargets(ws) == { ws[i].tg[1] : i \in { n \in 1..Len(ws) : IsCrashK(ws[n].k) } }
 
@@ -91,7 +90,7 @@ Workload(ws, hs) ==
         jobs == (IF Mode \in {"node"} THEN NodeJobs(ws, 1, 3) \o NodeJobs(ws, 2, 1)
                  ELSE IF 1 \in tg THEN NodeJobs(ws, 1, 2) \o NodeJobs(ws, 2, 1) ELSE <<>>)
                 \o (IF Q \in tg THEN QJobs(ws) ELSE <<>>)
-    IN [C |-> 4, L0 |-> 3, H |-> Horizon(ws), wins |-> ws, groups |-> Groups,
+    IN [C |-> 4, L0 |-> 3, H |-> LastEdge(ws) + 15 + 3 * Len(jobs), wins |-> ws, groups |-> Groups,
         jobs |-> jobs, probes |-> Probes(ws), holds |-> hs]
 
 WS == SeqOfSet(WithCancel(WinSpace))
